@@ -521,6 +521,8 @@ class Evaluator(object):
             return ('cast', self.eval(node['e'], env, guards, fn, chain), node['to'])
         if k == 'Try':
             inner = self.eval(node['e'], env, guards, fn, chain)
+            if inner is not None and inner[0] == 'call' and inner[1] in ('Ok', 'Some') and len(inner[2]) == 1:
+                return inner[2][0]  # `Ok(x)?` (the value a helper that was read through ends with) is x
             t = ('try', inner)
             self.emit('try', t, node, guards, fn, chain)
             return t
